@@ -24,8 +24,18 @@ type Result struct {
 	Vacuous bool
 }
 
-// Background returns the SMT text shared by all obligations of the function.
-func (e *Enc) Background() string {
+// BackgroundFor returns the SMT background of one obligation: all declarations, and the assertions generated BEFORE the
+// obligation's program point was reached (blocks are encoded in topological order). Facts assumed later — a loop
+// invariant assumed at the head after its entry obligation, a callee's postcondition after its precondition obligation —
+// must not be available to the earlier obligation: they would make the proof circular.
+func (e *Enc) BackgroundFor(o *Obligation) string {
+	return e.background(o.N)
+}
+
+// Background returns the SMT text with every assertion of the function (used for dumps).
+func (e *Enc) Background() string { return e.background(len(e.asserts)) }
+
+func (e *Enc) background(n int) string {
 	var b strings.Builder
 	b.WriteString(preludeSMT)
 	if e.needFP {
@@ -43,7 +53,10 @@ func (e *Enc) Background() string {
 	for _, d := range e.decls {
 		b.WriteString(d + "\n")
 	}
-	for _, a := range e.asserts {
+	if n > len(e.asserts) {
+		n = len(e.asserts)
+	}
+	for _, a := range e.asserts[:n] {
 		b.WriteString("(assert " + a + ")\n")
 	}
 	return b.String()
@@ -218,4 +231,29 @@ func truncate(s string, n int) string {
 		return s[:n] + "…"
 	}
 	return s
+}
+
+func solveAllEnc(outDir string, e *Enc, obls []*Obligation, tier string, workers int, seed int) []*Result {
+	budget := 10
+	if tier == "thorough" {
+		budget = 60
+	}
+	if budgetOverride > 0 {
+		budget = budgetOverride
+	}
+	os.MkdirAll(outDir, 0o755)
+	results := make([]*Result, len(obls))
+	var wg sync.WaitGroup
+	sem := make(chan struct{}, workers)
+	for i, o := range obls {
+		wg.Add(1)
+		go func(i int, o *Obligation) {
+			defer wg.Done()
+			sem <- struct{}{}
+			defer func() { <-sem }()
+			results[i] = solveOne(outDir, e.BackgroundFor(o), o, tier, budget, seed)
+		}(i, o)
+	}
+	wg.Wait()
+	return results
 }
